@@ -14,25 +14,25 @@ import (
 
 func init() { Registry["C07"] = C07 }
 
-var c07Names = []string{"x", "y", "z"}
-var c07Values = []string{"v", "a{2}", "[bc]+", "(?:p|q)", "{{y}}w", "u{{z}}", "{{y}}{{z}}"}
+var c07Names = []string{"x", "0y", "-z_9"} // names may start with a digit or a hyphen
+var c07Values = []string{"v", "a{2}", "[bc]+", "(?:p|q)", "{{0y}}w", "u{{-z_9}}", "{{0y}}{{-z_9}}", "[$_a-z]+", `\$1x${n}`}
 
 // bodies: where the references stand
 var c07Bodies = [][]string{
 	{"{{x}}a", "k"},
 	{"a{{x}}b"},
 	{"a{{x}}", "{{x}}{{x}}"},
-	{"{{y}}|{{z}}", "{{x}}"},
+	{"{{0y}}|{{-z_9}}", "{{x}}"},
 	{"##!^ {{x}}", "m"},
-	{"##!$ {{y}}", "m"},
-	{"##!> assemble", "{{x}}", "##!=>", "{{y}}", "##!<", "n"},
+	{"##!$ {{0y}}", "m"},
+	{"##!> assemble", "{{x}}", "##!=>", "{{0y}}", "##!<", "n"},
 	{"##!> include usesx", "o"},
 	{"{{q}}a", "{{x}}"},
 	{"##!> cmdline unix", "{{x}}", "##!<"},
 	// definitions of an included file are that file's business: a name only the included file defines stays
 	// literal in the including file, and a name both define keeps the including file's value outside the include
 	{"{{w}}a", "##!> include defsw", "b{{w}}"},
-	{"{{x}}t", "##!> include defsx", "{{x}}u", "{{y}}"},
+	{"{{x}}t", "##!> include defsx", "{{x}}u", "{{0y}}"},
 }
 
 type c07Case struct {
@@ -229,7 +229,7 @@ func C07(r *core.Run) {
 		// ALL map orders (unbounded deviations) for real three-link chains x -> y -> z, every permutation of the lines
 		full := 0
 		for _, zv := range []string{"v", "a{2}", "[bc]+", "(?:p|q)"} {
-			chain := [][2]string{{"x", "{{y}}w"}, {"y", "u{{z}}"}, {"z", zv}}
+			chain := [][2]string{{"x", "{{0y}}w"}, {"0y", "u{{-z_9}}"}, {"-z_9", zv}}
 			for _, perm := range permutations(3) {
 				for _, body := range []int{0, 3} {
 					if full++; full > in.FullPerm {
